@@ -65,7 +65,7 @@ fn mutation() -> BoxedStrategy<Mutation> {
         2 => (any::<u16>(), any::<u16>()).prop_map(|(a, b)| Mutation::DuplicateSlice(a, b)),
         2 => (any::<u16>(), any::<u16>()).prop_map(|(a, b)| Mutation::Splice(a, b)),
         3 => (any::<u16>(), 19u16..400).prop_map(|(a, b)| Mutation::HugeNumber(a, b)),
-        3 => (any::<u16>(), prop::sample::select(vec![&b"\0"[..], b"\xff", b"\xc3", b"\xf0\x9f", b"\n\n", b"\n\n\n", b"\n\n\n\n", b"\r\n", b"=", b"-", b"{", b"}", b"nb", b"@", b"\xa0", b" ", b"<", b">="]).prop_map(|s| s.to_vec())).prop_map(|(a, b)| Mutation::InsertBytes(a, b)),
+        3 => (any::<u16>(), prop::sample::select(vec![&b"\0"[..], b"\xff", b"\xc3", b"\xf0\x9f", b"\n\n", b"\n\n\n", b"\n\n\n\n", b"\r\n", b"=", b"-", b"{", b"}", b"nb", b"@", b"\xa0", b" ", b"<", b">=", "\u{130}".as_bytes(), "\u{23a}".as_bytes(), "\u{23e}".as_bytes(), "ß".as_bytes(), "\u{fb01}".as_bytes(), "\u{212a}".as_bytes(), "\u{feff}".as_bytes(), b"\r"]).prop_map(|s| s.to_vec())).prop_map(|(a, b)| Mutation::InsertBytes(a, b)),
         1 => (any::<u16>(), 500u16..3500).prop_map(|(a, b)| Mutation::LongLine(a, b)),
         2 => (any::<u16>(), any::<u16>()).prop_map(|(a, b)| Mutation::DeleteSlice(a, b)),
         2 => (any::<u16>(), any::<u8>()).prop_map(|(a, b)| Mutation::FlipByte(a, b)),
@@ -205,7 +205,17 @@ fn grammar(target: &'static str) -> BoxedStrategy<Vec<u8>> {
             1 => Just(SEED_PBULK.as_bytes()[..SEED_PBULK.len().min(4000)].to_vec()),
         ]
         .boxed(),
-        "digest" => (prop::sample::select(vec!["SHA1", "sha512", "BLAKE2s", "rmd160", "md5", "SHA256", "sha3", ""]), prop_oneof![2 => Just(SEED_PATCH.as_bytes().to_vec()), 2 => prop::collection::vec(any::<u8>(), 0..300)])
+        "digest" => (
+            prop_oneof![
+                4 => prop::sample::select(vec!["SHA1", "sha512", "BLAKE2s", "rmd160", "md5", "SHA256", "sha3", ""]).prop_map(String::from),
+                // names of a chosen length around characters whose case mappings change the
+                // encoded length (U+0130, U+023A, U+023E, sharp s, U+01F0, the fi ligature, Kelvin)
+                2 => (crate::engine::gen::interesting_len(40), prop::collection::vec(prop::sample::select(vec!["\u{130}", "\u{23a}", "\u{23e}", "ß", "\u{1f0}", "\u{fb01}", "\u{212a}", "é", "S", "a"]), 1..8), prop::sample::select(vec!["", "sha", "MD", "bla\u{212a}e2s"]))
+                    .prop_map(|(n, specials, word)| format!("{}{}{}", word, "a".repeat(n), specials.concat())),
+                1 => crate::engine::dict::string_token(|c| c != '\n', "SHA1"),
+            ],
+            prop_oneof![2 => Just(SEED_PATCH.as_bytes().to_vec()), 2 => prop::collection::vec(any::<u8>(), 0..300)],
+        )
             .prop_map(|(n, d)| [n.as_bytes().to_vec(), b"\n".to_vec(), d].concat())
             .boxed(),
         "metadata" => prop_oneof![
